@@ -1,9 +1,10 @@
-#![allow(dead_code, unused_variables, unused_imports, clippy::too_many_arguments, clippy::type_complexity, clippy::needless_range_loop)]
+#![allow(dead_code, unused_variables, unused_imports, unused_mut, clippy::too_many_arguments, clippy::type_complexity, clippy::needless_range_loop)]
 //! `mv <property> [--tier quick|thorough] [--seed N] [--shard i --nshards n] [--out file]
 //!     [--only monitor:case] [--scale f]` — runs one shard of one property's workload against the
 //! real library and writes what the monitors observed as JSON.
 
 mod props;
+mod refstats;
 mod rngcraft;
 mod targets;
 mod util;
